@@ -18,7 +18,7 @@ def run(prop, tier, seed, replay):
     common.proof_coverage(v, st, prop, TB)
     v.coverage.update(dict(
         evaluations=res["evals"] or res["stats"].get("release.runs", 0), distinct_nontrivial=res["distinct"],
-        rule="histories of 3-6 hub-sync runs by 1-3 clients with small local trees (paths incl. a space and a quote, contents 0 B - 300 kB, edited between runs) against one hub, target given as a local path or as host:root through the ssh stand-in; a quarter of the later runs have their listing forced stale (the client's server is held at its first staging open while another client commits to the same path). Per run: exit status, the `N sent, M unchanged, K conflict(s)` counters and the hub tree are compared with the extracted model; oracles: exit 0 => every local file on the hub byte-identical (unless superseded by another client's later commit), other hub files untouched, an immediate second run is a no-op; non-zero exit => every local file at its path or at its conflict-copy; nothing another client committed after the listing is overwritten. distinct_nontrivial = distinct (hub, local) pairs with both sent and skipped files.",
+        rule="histories of 3-6 hub-sync runs by 1-3 clients with small local trees (paths incl. a space and a quote, and a FILE `d` that clashes with the directory of d/x, d/y - runs with a file/directory clash between the local tree and the hub are checked by the oracles only; contents 0 B - 300 kB, edited between runs; history 0 is the directed stale-listing clash of the known finding DirClashStale) against one hub, target given as a local path or as host:root through the ssh stand-in; a quarter of the later runs have their listing forced stale (the client's server is held at its first staging open while another client commits to the same path). Per run: exit status, the `N sent, M unchanged, K conflict(s)` counters and the hub tree are compared with the extracted model; oracles: exit 0 => every local file on the hub byte-identical (unless superseded by another client's later commit), other hub files untouched, an immediate second run is a no-op; non-zero exit while the hub changed between this run's listing and its Puts => every local file at its path or at its conflict-copy; nothing another client committed after the listing is overwritten. distinct_nontrivial = distinct (hub, local) pairs with both sent and skipped files.",
         samples=[s_[:300] for s_ in res["samples"]] or ["(none)"], distribution=res["stats"], disagreements=res["dis"]))
     v.assumptions = TB
     return v.finish()
